@@ -292,6 +292,14 @@ def handle (sd : Side) (op : List String) (impl : List String) : Handled :=
         let (l1, r) := l.consume off mc
         { side := { sd with mlog := some l1 }, model := fmtOut fmtCons r, viols := v }
     | _, _ => { side := sd, model := "bad-op" }
+  | ["edge", _v, d] =>
+    -- the body limit at its edge, in a log of its own: a batch is accepted as a whole iff its largest body is
+    -- at most the documented maximum (`Gen.msgMaxMessageBodySize`, T1), and a refused batch leaves nothing behind
+    match d.toInt? with
+    | some delta =>
+      let model := if delta ≤ 0 then "accepted next=4 offs=0,1,2,3 big=ok" else "refused next=2 offs=0,1 big=-"
+      { side := sd, model := model, viols := viol (String.intercalate " " impl == model) "BodyLimitOK" }
+    | none => { side := sd, model := "bad-op" }
   | ["scan", m] =>
     match m.toNat? with
     | some mc =>
